@@ -417,6 +417,50 @@ READ_SIDE = {
 }
 
 
+READ_CALLS = ('from_file',)
+
+
+def _only_read(func, node):
+    '''The path built at `node` is bound to a local whose only uses are
+    arguments of the deserializer (and of logging calls): the read side,
+    wherever the code sits.'''
+    for call in walk_local(func.node):
+        if isinstance(call, ast.Call) and call_name(call) in READ_CALLS and \
+                any(n is node for arg in list(call.args) + [
+                    k.value for k in call.keywords] for n in ast.walk(arg)):
+            return True
+    holder = next((st for st in walk_local(func.node) if isinstance(
+        st, ast.Assign) and len(st.targets) == 1 and isinstance(
+            st.targets[0], ast.Name) and any(n is node for n in
+                                             ast.walk(st.value))), None)
+    if holder is None:
+        return False
+    name = holder.targets[0].id
+    if sum(1 for n in walk_local(func.node) if isinstance(n, ast.Name) and
+           n.id == name and isinstance(n.ctx, ast.Store)) != 1:
+        return False
+    loads = [n for n in walk_local(func.node) if isinstance(n, ast.Name) and
+             n.id == name and isinstance(n.ctx, ast.Load)]
+    if not loads:
+        return False
+    ok_args = set()
+    n_read = 0
+    for call in walk_local(func.node):
+        if not isinstance(call, ast.Call):
+            continue
+        cname = call_name(call)
+        recv = receiver(call)
+        logging_ = cname in ('debug', 'info', 'warning', 'error', 'note') \
+            and recv is not None and txt(recv).split('.')[0] in (
+                'LOGGER', 'logging')
+        if cname in READ_CALLS or logging_:
+            for arg in list(call.args) + [k.value for k in call.keywords]:
+                if isinstance(arg, ast.Name) and arg.id == name:
+                    ok_args.add(id(arg))
+                    n_read += cname in READ_CALLS
+    return n_read > 0 and all(id(n) in ok_args for n in loads)
+
+
 def path_sites(program):
     '''(func, node, root key, [name operands]) for every filesystem path
     built from a configured root and a task name.'''
@@ -501,11 +545,13 @@ def check_sanitize(ctx, scope=('output-root', 'log-root', 'report-root',
                     not _mentions_task_name(ast.Name(id=arg.arg,
                                                      ctx=ast.Load())):
                 assigns.setdefault(arg.arg, []).append(dflt)
+        read_side = func.key in READ_SIDE or _only_read(func, node)
         for opd in named:
             key = f'{rootkey} / {txt(opd)[:50]}'
-            if func.key in READ_SIDE:
+            if read_side:
                 ctx.holds('SANITIZE', func, key + ' (read side, exempt)',
-                          at=func.where(node), detail=READ_SIDE[func.key],
+                          at=func.where(node),
+                          detail=next(iter(READ_SIDE.values())),
                           nontrivial=False)
                 continue
             res = _sanitized(opd, assigns)
